@@ -2,10 +2,12 @@ module verifharness
 
 go 1.21
 
-require github.com/mochi-mqtt/server/v2 v2.0.0
+require (
+	github.com/gorilla/websocket v1.5.0
+	github.com/mochi-mqtt/server/v2 v2.0.0
+)
 
 require (
-	github.com/gorilla/websocket v1.5.0 // indirect
 	github.com/rs/xid v1.4.0 // indirect
 	gopkg.in/yaml.v3 v3.0.1 // indirect
 )
